@@ -149,6 +149,9 @@ package packetio
 //@   ensures [set] b.limitSize == limit && b.limitCount == atlock(b.limitCount) && b.count == atlock(b.count) && b.W == atlock(b.W) && b.R == atlock(b.R) &&
 //@            b.wr == atlock(b.wr) && b.rd == atlock(b.rd) && b.G == atlock(b.G) && b.start == atlock(b.start) && b.end == atlock(b.end) && b.closed == atlock(b.closed)
 
+// ---- lock discipline (C19); guarded fields are listed in the monitor declaration above
+//@ lockset C19: Buffer
+
 //@ property C06: NewBuffer, Buffer.grow, Buffer.Write, Buffer.Read, Buffer.Close, Buffer.size, Buffer.available
 //@ property C10: Buffer.Read, Buffer.SetReadDeadline
 //@ property C07: NewBuffer, Buffer.size, Buffer.available, Buffer.grow, Buffer.Write, Buffer.Read, Buffer.Count, Buffer.Size, Buffer.SetLimitCount, Buffer.SetLimitSize, Buffer.Close
